@@ -73,6 +73,7 @@ class SimFS:
         self.write_buffer = 8192
         self.writer_tags: dict = {}
         self.last_injected_error: BaseException | None = None
+        self.injected: list[BaseException] = []
 
     # -- process identity ------------------------------------------------------
     def pid(self):
@@ -124,6 +125,7 @@ class SimFS:
         e = exc_cls(en, _real_os.strerror(en), path)
         self.fired.append((self.nevents, "error", op, errno.errorcode.get(en, str(en))))
         self.last_injected_error = e
+        self.injected.append(e)
         raise e
 
     @staticmethod
@@ -464,23 +466,33 @@ class MemcacheError(Exception):
 
 
 class SimMemcache:
-    """dict-backed client with faults: raise on get/set, truncated value, lost set, eviction."""
+    """dict-backed client with faults: raise on get/set, truncated value, lost set, eviction.
+    ``fs`` supplies process identity, writer tags and the scheduler yield."""
 
-    def __init__(self) -> None:
+    def __init__(self, fs: "SimFS | None" = None) -> None:
+        self.fs = fs
         self.store: dict[str, bytes] = {}
         self.meta: dict[str, object] = {}
         self.nevents = 0
         self.faults: dict[int, tuple] = {}
         self.fired: list[tuple] = []
         self.log: list[tuple] = []
-        self.reads: list = []
-        self.writer = None
+        self.reads: dict = {}
         self.last_injected_error: BaseException | None = None
+        self.injected: list[BaseException] = []
+
+    def _pid(self):
+        return self.fs.pid() if self.fs is not None else 0
 
     def _event(self, op: str, key: str):
+        if self.fs is not None and self.fs.sched is not None:
+            self.fs.sched.yield_point("sys")
         self.nevents += 1
         self.log.append((self.nevents, op, len(self.store.get(key, b""))))
         return self.faults.get(self.nevents)
+
+    def _note_read(self, key: str) -> None:
+        self.reads.setdefault(self._pid(), []).append((key, self.meta.get(key)))
 
     def get(self, key: str):
         f = self._event("get", key)
@@ -488,6 +500,7 @@ class SimMemcache:
             self.fired.append((self.nevents, f[0], "get"))
             if f[0] == "raise":
                 self.last_injected_error = MemcacheError("injected get failure")
+                self.injected.append(self.last_injected_error)
                 raise self.last_injected_error
             if f[0] == "evict":
                 self.store.pop(key, None)
@@ -495,11 +508,11 @@ class SimMemcache:
             if f[0] == "truncate":
                 v = self.store.get(key)
                 if v is not None:
-                    self.reads.append((key, self.meta.get(key)))
+                    self._note_read(key)
                     return v[: f[1] % (len(v) + 1)]
         v = self.store.get(key)
         if v is not None:
-            self.reads.append((key, self.meta.get(key)))
+            self._note_read(key)
         return v
 
     def set(self, key: str, value: bytes, timeout=None) -> None:
@@ -508,10 +521,11 @@ class SimMemcache:
             self.fired.append((self.nevents, f[0], "set"))
             if f[0] == "raise":
                 self.last_injected_error = MemcacheError("injected set failure")
+                self.injected.append(self.last_injected_error)
                 raise self.last_injected_error
             if f[0] in ("lost", "evict"):
                 return
             if f[0] == "truncate":
                 value = value[: f[1] % (len(value) + 1)]
         self.store[key] = bytes(value)
-        self.meta[key] = self.writer
+        self.meta[key] = self.fs.writer_tag() if self.fs is not None else None
